@@ -11,7 +11,7 @@ import warnings
 import core  # noqa: F401
 from rdflib import BNode, ConjunctiveGraph, Dataset, Graph, Literal, URIRef
 from rdflib.plugins.stores.auditable import AuditableStore
-from rdflib.plugins.stores.memory import Memory
+from rdflib.plugins.stores.memory import Memory, SimpleMemory
 
 warnings.filterwarnings("ignore", category=DeprecationWarning)
 
@@ -20,8 +20,8 @@ LEAN_TARGETS = ["RV.C18.Props", "RV.C18.Audit"]
 AUDIT = "RV/C18/Audit.lean"
 DRIVER = "drv_c18"
 CASES = {"quick": 1500, "thorough": 40000, "search": 20000}
-RULE = ("random histories (1-14 ops) of add / batch addN and += (duplicates inside a batch) / parse of an N-Triples document into a graph / pattern-remove / commit / rollback through Graph, ConjunctiveGraph "
-        "or Dataset over AuditableStore(Memory), one or two wrappers (disjoint subjects); non-trivial = at least one "
+RULE = ("random histories (1-14 ops) of add / batch addN and += (duplicates inside a batch) / parse of an N-Triples document into a graph / Graph.set / -= / remove_context / pattern-remove / commit / rollback through Graph, ConjunctiveGraph "
+        "over AuditableStore(Memory) or a Graph over AuditableStore(SimpleMemory), one or two wrappers (disjoint subjects); non-trivial = at least one "
         "rollback or commit happens while the undo log is non-empty; distinct = distinct (cfg, init, ops)")
 ASSUMPTIONS = ["the wrapped Memory store behaves as a set of quads (C01/C02)",
                "two wrappers touch disjoint triples as the property states (disjoint subject sets)"]
@@ -52,9 +52,9 @@ def _ids(cfg):
 
 
 def gen_case(rng, tier, i):
-    cfg = rng.choice(["graph", "cg", "cg"])  # Dataset refuses a non-graph-aware store such as AuditableStore
-    two = cfg != "graph" and rng.random() < 0.3
-    graphs = [DEFAULT_G] if cfg == "graph" else [90, 91, 92, 93, DEFAULT_G]
+    cfg = rng.choice(["graph", "sgraph", "cg", "cg", "cg"])  # sgraph: the wrapped store is SimpleMemory; Dataset refuses a non-graph-aware store such as AuditableStore
+    two = cfg == "cg" and rng.random() < 0.3
+    graphs = [DEFAULT_G] if cfg in ("graph", "sgraph") else [90, 91, 92, 93, DEFAULT_G]
     subs = list(SUBJ)
 
     def quad(ss):
@@ -90,7 +90,22 @@ def gen_case(rng, tier, i):
             for _k in range(rng.randint(1, 3)):
                 qs.append([rng.choice(ground), rng.choice(list(PRED)), rng.choice([20, 21, 22, 23, 24]), c_])
             ops.append(["parse", w, qs])
-        elif r < 0.18 and cfg != "graph":
+        elif r < 0.155:
+            # Graph.set((s, p, o)): remove every (s, p, *) of that graph, then add
+            ops.append(["set", w] + quad(ss))
+        elif r < 0.17:
+            # graph -= [triples]: exact removes, present and absent ones
+            pool = [q for q in init if q[0] in ss] + [o[2:] for o in ops if o[0] == "add" and o[2] in ss]
+            c_ = rng.choice(graphs)
+            qs = []
+            for _k in range(rng.randint(1, 3)):
+                q = list(rng.choice(pool)) if pool and rng.random() < 0.7 else quad(ss)
+                qs.append(q[:3] + [c_])
+            ops.append(["isub", w, qs])
+        elif r < 0.18 and cfg == "cg" and not two:
+            # ConjunctiveGraph.remove_context(g): the whole graph goes
+            ops.append(["rmctx", w, rng.choice(graphs)])
+        elif r < 0.20 and cfg == "cg":
             q = quad(ss)
             extra = []
             for _k in range(rng.randint(0, 2)):
@@ -111,7 +126,7 @@ def gen_case(rng, tier, i):
                 q[2] = None
             if mask & 4 and not two:
                 q[0] = None
-            if cfg != "graph" and rng.random() < 0.3:
+            if cfg == "cg" and rng.random() < 0.3:
                 q[3] = None
             ops.append(["remove", w] + q)
         elif r < 0.9:
@@ -125,6 +140,10 @@ def gen_case(rng, tier, i):
 
 def _quads(mem, gn_rev, term_rev):
     out = []
+    if not mem.context_aware:   # SimpleMemory: one anonymous graph, reported as the default graph
+        for s, p, o in Graph(store=mem):
+            out.append((SUBJ_REV[s], PRED_REV[p], OBJ_REV[o], DEFAULT_G))
+        return sorted(set(out)), len(out)
     cg = ConjunctiveGraph(store=mem)
     for s, p, o, c in cg.quads((None, None, None)):
         out.append((SUBJ_REV[s], PRED_REV[p], OBJ_REV[o], gn_rev.get(c.identifier, 98)))
@@ -136,8 +155,10 @@ def run_impl(case):
     gn = _ids(cfg)
     gn_rev = {v: k for k, v in gn.items()}
     term_rev = {v: k for k, v in TERM.items()}
-    mem = Memory()
-    base = Graph(store=mem, identifier=gn[DEFAULT_G])
+    simple = cfg == "sgraph"
+    mem = SimpleMemory() if simple else Memory()
+    if simple:
+        cfg = "graph"           # same driving, the wrapped store is not context aware
     for s, p, o, c in case["init"]:
         mem.add((TERM[s], TERM[p], TERM[o]), Graph(store=mem, identifier=gn[c]))
     tops = []
@@ -201,6 +222,18 @@ def run_impl(case):
             else:
                 top.get_context(gn[c_]).parse(data=text, format="nt")
             dirty[w] = True
+        elif kind == "set":
+            s, p, o, c = op[2:]
+            (top if cfg == "graph" else top.get_context(gn[c])).set((t(s), t(p), t(o)))
+            dirty[w] = True
+        elif kind == "isub":
+            qs = op[2]
+            g_ = top if cfg == "graph" else top.get_context(gn[qs[0][3]])
+            g_ -= [(t(s_), t(p_), t(o_)) for s_, p_, o_, _c in qs]
+            dirty[w] = True
+        elif kind == "rmctx":
+            top.remove_context(top.get_context(gn[op[2]]))
+            dirty[w] = True
         elif kind == "remove":
             s, p, o, c = op[2:]
             if cfg == "graph":
@@ -243,8 +276,8 @@ def run_impl(case):
         if kind in ("rollback", "commit"):
             snap[w] = set(A)
     return {"obs": obs, "viol": viol, "nontrivial": nontrivial,
-            "key": repr((cfg, case["two"], case["init"], case["ops"])),
-            "stats": {"ops": len(case["ops"]), "cfg_" + cfg: 1, "two_wrappers": int(case["two"]),
+            "key": repr((case["cfg"], case["two"], case["init"], case["ops"])),
+            "stats": {"ops": len(case["ops"]), "cfg_" + case["cfg"]: 1, "two_wrappers": int(case["two"]),
                       **{"op_" + o[0]: 1 for o in case["ops"]},
                       "parse_in_transaction": int(any(o[0] == "parse" for o in case["ops"])),
                       "addf_foreign_graph_object": int(any(o[0] == "addf" for o in case["ops"])),
@@ -255,32 +288,42 @@ def _w(x):
     return "*" if x is None else str(x)
 
 
+def _op_lines(op):
+    """the model-side lines of one harness op (every compound op is the sequence of its adds / removes)"""
+    k, w = op[0], op[1]
+    if k in ("add", "remove"):
+        return [f"{k} {w} " + " ".join(_w(x) for x in op[2:])]
+    if k in ("addn", "parse"):
+        return [f"add {w} " + " ".join(_w(x) for x in q) for q in op[2]]
+    if k == "addf":
+        return ([f"add {w} " + " ".join(_w(x) for x in list(e) + [op[2][3]]) for e in op[3]]
+                + [f"add {w} " + " ".join(_w(x) for x in op[2])])
+    if k == "set":
+        s_, p_, o_, c_ = op[2:]
+        return [f"remove {w} {s_} {p_} * {c_}", f"add {w} {s_} {p_} {o_} {c_}"]
+    if k == "isub":
+        return [f"remove {w} " + " ".join(_w(x) for x in q) for q in op[2]]
+    if k == "rmctx":
+        return [f"remove {w} * * * {op[2]}"]
+    return [f"{k} {w}"]
+
+
 def model_lines(case):
     lines = ["reset"]
     for q in case["init"]:
         lines.append("init " + " ".join(map(str, q)))
     for op in case["ops"]:
-        if op[0] in ("add", "remove"):
-            lines.append(f"{op[0]} {op[1]} " + " ".join(_w(x) for x in op[2:]))
-        elif op[0] in ("addn", "parse"):
-            for q in op[2]:
-                lines.append(f"add {op[1]} " + " ".join(_w(x) for x in q))
-        elif op[0] == "addf":
-            for e in op[3]:
-                lines.append(f"add {op[1]} " + " ".join(_w(x) for x in list(e) + [op[2][3]]))
-            lines.append(f"add {op[1]} " + " ".join(_w(x) for x in op[2]))
-        else:
-            lines.append(f"{op[0]} {op[1]}")
+        lines.extend(_op_lines(op))
         lines.append("obs")
     return lines
 
 
 def select_model_obs(case, out):
-    # keep only the answers to `obs` (every op is followed by exactly one `obs`; an addn is several add lines)
+    # keep only the answers to `obs` (every op is followed by exactly one `obs`)
     i = 1 + len(case["init"])
     res = []
     for op in case["ops"]:
-        i += len(op[2]) if op[0] in ("addn", "parse") else (len(op[3]) + 1) if op[0] == "addf" else 1
+        i += len(_op_lines(op))
         res.append(out[i])
         i += 1
     return res
@@ -297,7 +340,7 @@ def shrink(case):
             for j in range(len(op[3])):
                 yield {**case, "ops": ops[:i] + [["addf", op[1], op[2], op[3][:j] + op[3][j + 1:]]] + ops[i + 1:]}
     for i, op in enumerate(ops):
-        if op[0] in ("addn", "parse") and len(op[2]) > 1:
+        if op[0] in ("addn", "parse", "isub") and len(op[2]) > 1:
             for j in range(len(op[2])):
                 yield {**case, "ops": ops[:i] + [[op[0], op[1], op[2][:j] + op[2][j + 1:]]] + ops[i + 1:]}
     if case["two"] and all(o[1] == 0 for o in ops):
